@@ -1,9 +1,16 @@
-/-! C19, durations: `period.NewOf` followed by `DurationApprox`, in units of 100 ms, for durations below 3277 days
-    (beyond that the library switches to approximate years and months). String rendering and parsing of the
-    period (assumption A-period) sit between the two and are not modelled. -/
+/-! C19, durations: `period.NewOf` followed by `Period.DurationApprox` (rickb777/date v1.21.1,
+    `period/period.go:97-132, 407-442`), in units of 100 ms, as integer arithmetic on the field tuple.
+    Below 3277 days the round trip is exact; from 3277 days on the library switches to approximate
+    years (365.2425 d) and months (30.4369 d when splitting, 30.436875 d when summing) and drops
+    minutes and seconds. String rendering and parsing of the period in between (assumption A-period:
+    `Parse (String p)` has the same `DurationApprox` as `p`; the parser only moves whole multiples of
+    24 h from the hours into the days field) is not modelled.
+    Core Lean only (imported by `Drivers/Num.lean`). -/
 namespace Spine.Dur
 
 structure Period where
+  years : Nat
+  months : Nat
   days : Nat
   hours : Nat
   minutes : Nat
@@ -13,32 +20,66 @@ deriving DecidableEq, Repr
 def unitsPerHour : Nat := 36000
 def unitsPerMinute : Nat := 600
 
-/-- period.NewOf for a non-negative duration of `n` units of 100 ms, first two cases -/
-def newOf (n : Nat) : Option Period :=
+/-- third case of `period.NewOf` (≥ 3277 days): approximate years and months, whole hours -/
+def newOfLong (totalHours : Nat) : Period :=
+  let totalDays := totalHours / 24
+  let years := 10000 * totalDays / 3652425
+  let months := 10000 * totalDays / 304369 - 12 * years
+  ⟨years, months, (totalDays * 10000 - 304369 * months - 3652425 * years) / 10000,
+   totalHours - totalDays * 24, 0, 0⟩
+
+/-- period.NewOf for a non-negative duration of `n` units of 100 ms (fields fit `int16` tenths for
+    `n` below 3276 years) -/
+def newOf (n : Nat) : Period :=
   let totalHours := n / unitsPerHour
   if totalHours < 3277 then
-    some ⟨0, totalHours, n % unitsPerHour / unitsPerMinute, n % unitsPerMinute⟩
+    ⟨0, 0, 0, totalHours, n % unitsPerHour / unitsPerMinute, n % unitsPerMinute⟩
   else
     let totalDays := totalHours / 24
     if totalDays < 3277 then
-      some ⟨totalDays, totalHours - totalDays * 24, n % unitsPerHour / unitsPerMinute, n % unitsPerMinute⟩
-    else none                                  -- years and months, approximate: outside the theorem
+      ⟨0, 0, totalDays, totalHours - totalDays * 24, n % unitsPerHour / unitsPerMinute, n % unitsPerMinute⟩
+    else newOfLong totalHours
 
-/-- Period.DurationApprox for a period without years and months -/
+/-- Period.DurationApprox in units of 100 ms: a year is 31 556 952 s, a month 2 629 746 s -/
 def approx (p : Period) : Nat :=
+  p.years * 315569520 + p.months * 26297460 +
   (p.days * 24 + p.hours) * unitsPerHour + p.minutes * unitsPerMinute + p.tenths
+
+/-- `NewDurationType(d).GetTimeDuration()` for `d` = `z` units of 100 ms, either sign
+    (`NewOf` negates, converts, and negates every field) -/
+def roundTrip (z : Int) : Int := if z < 0 then -((approx (newOf z.natAbs) : Nat) : Int) else (approx (newOf z.natAbs) : Nat)
+
+/-- the same for a duration in nanoseconds: `NewOf` drops what is below 100 ms -/
+def roundTripNs (ns : Int) : Int :=
+  if ns < 0 then -((approx (newOf (ns.natAbs / 100000000)) * 100000000 : Nat) : Int)
+  else (approx (newOf (ns.natAbs / 100000000)) * 100000000 : Nat)
 
 /-- C19: every duration that is a whole multiple of 100 ms and shorter than 3277 days survives the conversion
     exactly -/
 theorem c19_duration_exact (n : Nat) (h : n / unitsPerHour / 24 < 3277) :
-    (newOf n).map approx = some n := by
+    approx (newOf n) = n := by
   unfold newOf approx unitsPerHour unitsPerMinute at *
   simp only
   split
-  · simp only [Option.map_some, Option.some.injEq]; omega
-  · simp only [h, if_true, Option.map_some, Option.some.injEq]; omega
+  · simp only; omega
+  · simp only [h, if_true]; omega
 
-/-- the first duration the library no longer represents exactly: 3277 days -/
-example : newOf (3277 * 24 * 36000) = none := by decide
+/-- … for either sign -/
+theorem c19_duration_exact_signed (z : Int) (h : z.natAbs / unitsPerHour / 24 < 3277) :
+    roundTrip z = z := by
+  unfold roundTrip
+  rw [c19_duration_exact _ h]
+  split <;> omega
+
+/-- the first duration the library no longer represents exactly: 3277 days come back as
+    8 years 11 months 20 days = 3276 d 17 h 53 m 42 s -/
+theorem duration_3277_days_inexact :
+    newOf (3277 * 24 * 36000) = ⟨8, 11, 20, 0, 0, 0⟩ ∧
+    approx (newOf (3277 * 24 * 36000)) = (((3276 * 24 + 17) * 60 + 53) * 60 + 42) * 10 := by decide
+
+/-- 10 years of 365 days (87600 h) come back as 87599 h 42 m 54 s -/
+theorem duration_10_years_inexact :
+    newOf (3650 * 24 * 36000) = ⟨9, 11, 28, 0, 0, 0⟩ ∧
+    approx (newOf (3650 * 24 * 36000)) = (87599 * 60 + 42) * 600 + 540 := by decide
 
 end Spine.Dur
